@@ -420,7 +420,8 @@ def rule_R5(ctx, repo, eng, imm, mut, rid='C09.R5'):
                     r.ok(key, site, '%s slot' % kind)
                 elif kind.startswith('seq:'):
                     ok, why = frozen_seq(repo, f, e, kind[4:], imm_names, mut)
-                    r.check(ok, key, site, why, 'sequence slot %s of immutable %s is not frozen: %s' % (slot, c.name, why))
+                    # a parameter stored as it came is a fact about this statement, whatever else was rewritten
+                    r.check(ok, key, site, why, 'sequence slot %s of immutable %s is not frozen: %s' % (slot, c.name, why), sure='is stored as given' in (why or ''))
                 elif kind.startswith('obj:'):
                     ocn = kind[4:]
                     oci = [k for k in repo.classes.values() if k.name == ocn][0]
